@@ -44,6 +44,8 @@ type cfg struct {
 	Depth      int
 	Concurrent bool // each received message processed in its own thread; copies injected back-to-back
 	Preempt    int
+	MaxAge     int        // >=0 with HasMaxAge: the handler's reply carries a Max-Age option of that many seconds (the cache lifetime is 247 s regardless)
+	HasMaxAge  bool
 	Code       codes.Code // request method of m1 and m2 (0 = GET); RFC 8132 adds FETCH 0.05, PATCH 0.06, iPATCH 0.07
 	DTLS       bool       // the connection runs over the real dtls/server.Session (read loop, datagram stream) instead of the in-memory session
 }
@@ -55,6 +57,9 @@ func (c cfg) String() string {
 	}
 	if c.Code != 0 {
 		tr += fmt.Sprintf(" method=%v", c.Code)
+	}
+	if c.HasMaxAge {
+		tr += fmt.Sprintf(" reply-max-age=%d", c.MaxAge)
 	}
 	if c.Concurrent {
 		return fmt.Sprintf("dedup concurrent copies m1=%v preempt<=%d%s", c.K[0], c.Preempt, tr)
@@ -103,7 +108,13 @@ func scenario(c cfg) *mcx.Scenario {
 					for _, k := range c.K {
 						if k.MID == r.MessageID() && k.Reply {
 							nonce++
-							_ = rw.SetResponse(codes.Content, message.TextPlain, bytes.NewReader([]byte(fmt.Sprintf("reply-%d-#%d", r.MessageID(), nonce))), message.Option{ID: message.ETag, Value: []byte{byte(nonce)}})
+							ropts := []message.Option{{ID: message.ETag, Value: []byte{byte(nonce)}}}
+							if c.HasMaxAge {
+								b := make([]byte, 4)
+								n, _ := message.EncodeUint32(b, uint32(c.MaxAge))
+								ropts = append(ropts, message.Option{ID: message.MaxAge, Value: b[:n]})
+							}
+							_ = rw.SetResponse(codes.Content, message.TextPlain, bytes.NewReader([]byte(fmt.Sprintf("reply-%d-#%d", r.MessageID(), nonce))), ropts...)
 						}
 					}
 				}}
@@ -160,8 +171,15 @@ func scenario(c cfg) *mcx.Scenario {
 				for step := 0; step < c.Depth; step++ {
 					vrt.Quiesce("env: settle")
 					w.NewOuts()
-					ch := vrt.Choose(5, nil)
+					nch := 5
+					if c.HasMaxAge {
+						nch = 6
+					}
+					ch := vrt.Choose(nch, nil)
 					switch ch {
+					case 5:
+						hist = append(hist, "+2s")
+						vrt.Advance(2 * time.Second)
 					case 0, 1:
 						k := c.K[ch]
 						hist = append(hist, fmt.Sprintf("inject(m%d)", ch+1))
@@ -262,6 +280,24 @@ func main() {
 			scs = append(scs, scenario(cfg{K: [2]kind{{t1, r1, 5001}}, Concurrent: true, Preempt: ev.Pick(r, 2, 3)}))
 		}
 	}
+	// a DIFFERENT request (other token, other path) that carries the message ID of an earlier one is a duplicate
+	// on the message layer: it is answered with the earlier reply - token included - and never handled
+	for _, t1 := range types {
+		for _, t2 := range types {
+			scs = append(scs, scenario(cfg{K: [2]kind{{t1, true, 5001}, {t2, true, 5001}}, Depth: ev.Pick(r, 4, 5)}))
+		}
+	}
+	// replies that carry a Max-Age option (0 s, 1 s): the de-duplication lifetime is the exchange lifetime, not the
+	// freshness of the representation
+	for _, ma := range []int{0, 1} {
+		for _, t1 := range types {
+			scs = append(scs, scenario(cfg{K: [2]kind{{t1, true, 5001}, {message.Confirmable, false, 5002}}, Depth: ev.Pick(r, 4, 5), HasMaxAge: true, MaxAge: ma}))
+		}
+	}
+	for _, con := range []bool{true, false} {
+		scs = append(scs, blockScenario(codes.GET, con, ev.Pick(r, 5, 7)))
+	}
+	scs = append(scs, blockScenario(codes.POST, true, ev.Pick(r, 5, 6)))
 	// every request method: GET..DELETE and the RFC 8132 methods FETCH, PATCH, iPATCH (reduced family per method)
 	for _, code := range []codes.Code{codes.POST, codes.PUT, codes.DELETE, codes.Code(5), codes.Code(6), codes.Code(7)} {
 		for _, t1 := range types {
